@@ -3,7 +3,7 @@
    ([m_empty]), and clause 9.3 (progress at quiescence). *)
 From Util Require Import Common.Base Common.ListLemmas RefCount.Model RefCount.Spec RefCount.Proofs RefCount.ProofsC08 RefCount.ProofsC08b
   RefCount.ProofsC09 RefCount.ProofsC10 RefCount.ProofsC10a RefCount.ProofsC10b RefCount.ProofsCodec RefCount.ProofsMon RefCount.ProofsMon2 RefCount.ProofsMon3
-  RefCount.ProofsMon4 RefCount.ProofsMon5 RefCount.ProofsMon6 RefCount.ProofsMon7 RefCount.ProofsMonG RefCount.ProofsMon8.
+  RefCount.ProofsMon4 RefCount.ProofsMon5 RefCount.ProofsMon6 RefCount.ProofsMon7 RefCount.ProofsMonG RefCount.ProofsMon10 RefCount.ProofsMon17 RefCount.ProofsMonE RefCount.ProofsMon18 RefCount.ProofsMon8.
 Open Scope nat_scope.
 
 (* ------------------------------------------------------------------ *)
@@ -109,128 +109,6 @@ Proof.
 Qed.
 
 (* ------------------------------------------------------------------ *)
-(* the goroutines whose resolver call returned the empty value *)
-Definition Pret0 (i : nat) (l : list gor) : Prop := exists x, nth_error l i = Some x /\ returned (gpcv x) = true.
-
-Lemma Pret0_gtr i l l' : gtr l l' -> Pret0 i l -> Pret0 i l'.
-Proof.
-  apply (gtr_ind_prop (Pret0 i)).
-  - intros l0 g x Hx [y [Hy A]]. assert (Hl : g < length l0) by (eapply nth_error_nth_len; eauto). destruct (Nat.eq_dec i g) as [->|Hne].
-    + exists (gcancel x). rewrite nth_error_set_nth_same by exact Hl. assert (y = x) by congruence. subst y. auto.
-    + exists y. rewrite nth_error_set_nth_other by exact Hne. auto.
-  - intros l0 x _ _ _ [y [Hy A]]. exists y. split; [|exact A]. rewrite nth_error_app1; [exact Hy | eapply nth_error_nth_len; eauto].
-  - intros l0 g x p Hx Hm [y [Hy A]]. assert (Hl : g < length l0) by (eapply nth_error_nth_len; eauto). destruct (Nat.eq_dec i g) as [->|Hne].
-    + exists (with_gpc x p). rewrite nth_error_set_nth_same by exact Hl. assert (y = x) by congruence. subst y.
-      split; [reflexivity|]. unfold okmove in Hm. destruct (gpcv x); try discriminate A; destruct p; try contradiction. reflexivity.
-    + exists y. rewrite nth_error_set_nth_other by exact Hne. auto.
-Qed.
-
-Lemma Pret0_step i s e : Pret0 i (gs s) -> Pret0 i (gs (step repaired s e)).
-Proof.
-  intros H. destruct e as [c|k|r|a|g|a|g en|g v hr er|g|k|c|c|c|c res|c]; try (refine (Pret0_gtr i _ _ (gtr_step s _ _) H); intros; discriminate).
-  cbn [step]. unfold resolver_return. destruct (nth_error (gs s) g) as [x|] eqn:Ex; [|exact H]. destruct (gpcv x) eqn:Ep; try exact H.
-  destruct H as [y [Hy A]]. assert (Hl : g < length (gs s)) by (eapply nth_error_nth_len; eauto). rewrite gs_setg.
-  destruct (Nat.eq_dec i g) as [->|Hne].
-  - assert (y = x) by congruence. subst y. rewrite Ep in A. discriminate.
-  - exists y. rewrite nth_error_set_nth_other by exact Hne. auto.
-Qed.
-
-Record Rempty (m : mst) (s : st) : Prop := {
-  re_ret : forall g, mem g (m_empty m) = true -> Pret0 (n2n g) (gs s);
-  re_store : forall i v hr e, at_store i v hr e (gs s) -> (mem (nn i) (m_empty m) = true <-> v = 0);
-  re_cur : resolved s = true -> (mem (nn (vgen s)) (m_empty m) = true <-> value s = 0);
-}.
-
-(* results at the store gate after a section: those that were there, and the one a resolver return put there *)
-Lemma at_store_step s e i v hr er :
-  at_store i v hr er (gs (step repaired s e)) ->
-  at_store i v hr er (gs s) \/
-  (e = EResReturn i v hr er /\ exists x, nth_error (gs s) i = Some x /\ gpcv x = GInRes).
-Proof.
-  intros H. destruct e as [c|k|r|a|g|a|g en|g v0 hr0 er0|g|k|c|c|c|c res|c];
-    try (left; refine (no_new_store i v hr er _ _ (gtr_step s _ _) H); intros; discriminate).
-  cbn [step] in H. unfold resolver_return in H. destruct (nth_error (gs s) g) as [x|] eqn:Ex; [|now left]. destruct (gpcv x) eqn:Ep; try (now left).
-  destruct H as [y [Hy Ey]]. assert (Hl : g < length (gs s)) by (eapply nth_error_nth_len; eauto). rewrite gs_setg in Hy.
-  destruct (Nat.eq_dec i g) as [->|Hne].
-  - rewrite nth_error_set_nth_same in Hy by exact Hl. inversion Hy; subst y. cbn [gpcv with_gpc] in Ey. inversion Ey; subst. right. split; [reflexivity|]. eauto.
-  - rewrite nth_error_set_nth_other in Hy by exact Hne. left. exists y. auto.
-Qed.
-
-Section Empty.
-  Variables (m : mst) (h : hst) (e : list N) (e0 : ev) (rets : list N).
-  Hypothesis HRh : HR h.
-  Hypothesis HP : Rproj m h.
-  Hypothesis Hd : dec h e e0 rets.
-  Hypothesis Hc : hconst h = false.
-  Hypothesis Hem : Rempty m (hs h).
-  Local Notation s := (hs h).
-  Local Notation s1 := (step repaired (hs h) e0).
-  Local Notation s' := (settle (step repaired (hs h) e0)).
-  Local Notation p := (pobs_of rets (settle (step repaired (hs h) e0)) (hrel h)).
-
-  (* how the event extends the list *)
-  Lemma u_empty_cases :
-    (u_empty m e = m_empty m /\ forall g v hr er, e0 = EResReturn g v hr er -> v = S g) \/
-    (exists g hr er x, u_empty m e = m_empty m ++ [g] /\ e0 = EResReturn (n2n g) 0 hr er /\ nth_error (gs s) (n2n g) = Some x /\ gpcv x = GInRes).
-  Proof.
-    destruct Hd; try (left; split; [reflexivity | intros; discriminate]).
-    - left. split; [reflexivity|]. intros g0 v hr0 er0 E. inversion E. rewrite Hc. reflexivity.
-    - cbn [u_empty]. unfold res_val. rewrite Hc. unfold nz. destruct (N.eqb_spec z 0) as [Ez|Ez]; cbn [negb].
-      + left. split; [reflexivity|]. intros g0 v hr0 er0 E. inversion E. reflexivity.
-      + right. exists g, (nz hr), (n2n er), x. auto.
-  Qed.
-
-  Lemma upd_empty : Rempty (u_mst m e p) s'.
-  Proof.
-    pose proof u_empty_cases as UC. pose proof (gtr_settle s1) as GS. pose proof (settle_vf s1) as V'.
-    pose proof (HR_inv h HRh Hc) as I0. pose proof (HR_chain h HRh) as HCh.
-    assert (NotRet : forall g x, nth_error (gs s) (n2n g) = Some x -> gpcv x = GInRes -> mem g (m_empty m) = false).
-    { intros g x Hx Hp. destruct (mem g (m_empty m)) eqn:E; [|reflexivity]. destruct (re_ret m s Hem g E) as [y [Hy A]].
-      assert (y = x) by congruence. subst y. rewrite Hp in A. discriminate. }
-    destruct Hem as [E1 E2 E3]. constructor; cbn [m_empty u_mst].
-    - (* returned *) intros g Hg.
-      assert (Old : mem g (m_empty m) = true -> Pret0 (n2n g) (gs s')).
-      { intros Hm. apply (Pret0_gtr _ _ _ GS). apply Pret0_step. now apply E1. }
-      destruct UC as [[UE _]|[g0 [hr [er [x [UE [He0 [Hx Hp]]]]]]]]; rewrite UE in Hg; [now apply Old|].
-      rewrite mem_app in Hg. apply orb_true_iff in Hg. destruct Hg as [Hg|Hg]; [now apply Old|].
-      unfold mem in Hg. cbn [existsb] in Hg. rewrite orb_false_r in Hg. apply N.eqb_eq in Hg. subst g0.
-      apply (Pret0_gtr _ _ _ GS). rewrite He0. cbn [step]. unfold resolver_return. rewrite Hx, Hp, gs_setg.
-      eexists. split; [apply nth_error_set_nth_same; eapply nth_error_nth_len; eauto | reflexivity].
-    - (* at the store gate *) intros i v hr er Hs. apply (no_new_store _ _ _ _ _ _ GS) in Hs.
-      destruct (at_store_step s e0 i v hr er Hs) as [Hold|[He0 [x [Hx Hp]]]].
-      + destruct UC as [[-> _]|[g0 [hr0 [er0 [x [-> [He0 [Hx Hp]]]]]]]]; [now apply (E2 i v hr er)|].
-        rewrite mem_app. unfold mem at 2. cbn [existsb]. rewrite orb_false_r.
-        assert (Hne : N.eqb (nn i) g0 = false).
-        { apply N.eqb_neq. intros E. subst g0. rewrite n2n_nn in Hx. destruct Hold as [y [Hy Ey]]. assert (y = x) by congruence. subst y. congruence. }
-        rewrite Hne, orb_false_r. now apply (E2 i v hr er).
-      + destruct UC as [[-> Hv]|[g0 [hr0 [er0 [x0 [-> [He0' [Hx0 Hp0]]]]]]]].
-        * rewrite (Hv _ _ _ _ He0). rewrite (NotRet (nn i) x) by (rewrite ?n2n_nn; assumption). split; discriminate.
-        * rewrite He0 in He0'. inversion He0'; subst. rewrite nn_n2n, mem_app. unfold mem at 2. cbn [existsb]. rewrite N.eqb_refl.
-          rewrite orb_true_r. split; reflexivity.
-    - (* the stored result *) intros Er. destruct (vf_fields _ _ V') as [A [B [_ [D _]]]]. rewrite A in Er. rewrite B, D.
-      destruct I0 as [[HN [HS [_ [_ [HV0 _]]]]] _].
-      assert (Stay : forall g0 x, nth_error (gs s) (n2n g0) = Some x -> gpcv x = GInRes -> resolved s = true -> N.eqb (nn (vgen s)) g0 = false).
-      { intros g0 x Hx Hp Er0. apply N.eqb_neq. intros E. destruct HV0 as [V1 _]. destruct (V1 Er0) as [_ [_ [A3 _]]].
-        rewrite <- E, n2n_nn in Hx. destruct (getg_nth_error s _ x Hx) as [Eg _]. rewrite Eg in A3. unfold gdone in A3. rewrite Hp in A3. discriminate. }
-      assert (Cases : (forall g, e0 <> EStore g) \/
-                      exists g x v hr er, e0 = EStore g /\ nth_error (gs s) g = Some x /\ gpcv x = GStore v hr er).
-      { destruct Hd; try (left; intros; discriminate). right. eauto 10. }
-      destruct Cases as [Hne|[g [x [v [hr [er [He0 [Hx Hp]]]]]]]].
-      + destruct (vkeep_step s _ Hne) as [Ek|Ek]; [congruence|].
-        destruct (vf_fields _ _ Ek) as [A' [B' [_ [D' _]]]]. rewrite A' in Er. rewrite B', D'.
-        destruct UC as [[-> _]|[g0 [hr0 [er0 [x0 [-> [He0' [Hx0 Hp0]]]]]]]]; [now apply E3|].
-        rewrite mem_app. unfold mem at 2. cbn [existsb]. rewrite orb_false_r, (Stay g0 x0 Hx0 Hp0 Er), orb_false_r. now apply E3.
-      + (* the store section *)
-        destruct UC as [[-> _]|[g0 [hr0 [er0 [x0 [_ [He0' _]]]]]]]; [|congruence].
-        assert (Hnd : gdone x = false) by (unfold gdone; now rewrite Hp).
-        pose proof (store_vf s g x v hr er Hx Hp) as SV. cbv zeta in SV. rewrite He0 in *. cbn [step] in *.
-        destruct (Nat.eqb (nonce s) (gnonce x)).
-        * destruct SV as [_ [Bv [_ [Dv _]]]]. rewrite Bv, Dv. apply (E2 g v hr er). exists x. auto.
-        * destruct (vf_fields _ _ SV) as [A' _]. rewrite A' in Er. rewrite (pending_unresolved s g x HCh HN HV0 Hx Hnd) in Er. discriminate.
-  Qed.
-End Empty.
-
-(* ------------------------------------------------------------------ *)
 Lemma forallb_map {A B} (f : B -> bool) (g : A -> B) l : forallb f (map g l) = forallb (fun x => f (g x)) l.
 Proof. induction l as [|a l IH]; [reflexivity|]. cbn [map forallb]. now rewrite IH. Qed.
 
@@ -279,7 +157,7 @@ Section C93.
     apply andb_true_iff in Cond. destruct Cond as [Cond C4]. apply andb_true_iff in Cond. destruct Cond as [Cond C3]. apply andb_true_iff in Cond. destruct Cond as [C1 C2].
     pose proof (upd_ctx m h e e0 rets HP Hd) as Ectx. pose proof (upd_rootc m h e e0 rets HP Hd) as Eroot.
     pose proof (upd_in m h e e0 rets HP Hd) as Ein. pose proof (p_nin m h e e0 Ein) as Enin. pose proof (upd_kind m h e e0 rets HP Hd) as Ekind.
-    pose proof (upd_cur m h e e0 rets HRh HP Hd Hc Hcur) as Ecur. pose proof (upd_empty m h e e0 rets HRh Hd Hc Hem) as Eem.
+    pose proof (upd_cur_c m h e e0 rets (HR_HRc h HRh Hc) HP Hd Hcur Hem) as Ecur. pose proof (upd_empty m h e e0 rets (HR_HRc h HRh Hc) Hd Hem) as Eem.
     pose proof (HR_inv _ (HRh' h e e0 rets HRh Hd) Hc) as I2. pose proof (HR_chain _ (HRh' h e e0 rets HRh Hd)) as Ch2. cbn [hs] in I2, Ch2.
     rewrite Ectx, nz_nn in C2. apply negb_true_iff, Nat.eqb_neq in C2.
     rewrite Ectx, Eroot, rcanc_mem in C3. apply negb_true_iff in C3. rewrite Enin in C4. apply Nat.ltb_lt in C4.
@@ -301,9 +179,9 @@ Section C93.
       assert (El' : (lc, v, er) = (2%N, nn (value s'), nn (verr s'))).
       { destruct (rkind x); try (exfalso; apply Ek0; reflexivity); now inversion El. }
       inversion El'; subst lc v er. rewrite !N.eqb_refl, andb_true_r. cbn [andb].
-      destruct I2 as [[_ [_ [_ [_ [[V1 _] _]]]]] _]. destruct (V1 Er) as [Hv _]. pose proof (re_cur _ _ Eem Er) as RC. cbn [m_empty u_mst] in RC.
+      destruct I2 as [[_ [_ [_ [_ [[V1 _] _]]]]] _]. destruct (V1 Er) as [Hv _]. pose proof (rl_cur _ _ _ (re_e _ _ Eem) Er) as RC. cbn [m_empty u_mst] in RC. unfold Pz in RC.
       destruct (mem (nn (vgen s')) (u_empty m e)) eqn:Em.
       + rewrite (proj1 RC eq_refl). apply N.eqb_refl.
-      + destruct Hv as [Hv|[Hv _]]; [rewrite Hv, nn_S; apply N.eqb_refl | destruct RC as [_ RC]; specialize (RC Hv); discriminate].
+      + destruct Hv as [Hv|Hv]; [rewrite Hv, nn_S; apply N.eqb_refl | destruct RC as [_ RC]; specialize (RC Hv); discriminate].
   Qed.
 End C93.
